@@ -266,7 +266,8 @@ def run(ctx: Ctx) -> None:
     # finding already listed for C09 - a trailing comment taken into the name - stays keyed under C09 only)
     from . import c09
     from ..report import run_shared
-    run_shared(ctx, c09.run, {"R9.4": ("R1.10", "the #include operand is what is written after the directive name, whatever blanks the lexer rule admits")},
+    run_shared(ctx, c09.run, {"R9.4": ("R1.10", "the #include operand is what is written after the directive name, whatever blanks the lexer rule admits"),
+                              "R9.8": ("R1.14", "look-ahead accessors compare token types with types and texts with texts (an identifier spelled like a token type stays a name)")},
                {"R9.4|lexer:PlyLexer.t_INCLUDE_DIRECTIVE|trailing comment"})
 
     # ---------------------------------------------------------------- R1.11
